@@ -20,5 +20,8 @@ missing = [t for t in base["stable_pass"] if t not in passed]
 print("passed=%d stable=%d missing=%d" % (len(passed), len(base["stable_pass"]), len(missing)))
 for m in missing:
     print("  MISSING", m)
-# untracked artefacts the suite drops
+# untracked artefact the suite drops into the repository
+art = os.path.join(repo, "tests/test_data/wedgeutils_data/wedge_mask.em")
+if os.path.exists(art):
+    os.remove(art)
 sys.exit(1 if missing else 0)
